@@ -9,5 +9,5 @@ CONSTANTS
     CleanupReservation = TRUE
     MayFault = TRUE
     FaultAfterCommit = FALSE
-INVARIANTS CrashAtomic NoVisibleBeforeDurable AckDurableS FailureChangesNothing TmpEmptyAfterOp OnlyOwnPaths ReaderSeesWhole
+INVARIANTS CrashAtomic NoVisibleBeforeDurable AckDurableS FailureChangesNothing TmpEmptyAfterOp RecordSurvives OnlyOwnPaths ReaderSeesWhole
 CHECK_DEADLOCK FALSE
